@@ -381,6 +381,24 @@ Proof.
 Qed.
 
 
+(** its turn: the second look at the completed flag *)
+Lemma iD_chkt c t q b :
+  IInvA e L c -> IInvD c -> In t L -> t_pc (c_pool c t) = PChkT q b -> IInvD (step e c t).
+Proof.
+  intros A I Hin Hpc. rewrite (istep_chkt e c t q b Hpc).
+  destruct (s_f (c_sh c)) eqn:Ef.
+  - apply iD_finish_end; try assumption; auto.
+    + rewrite Hpc. reflexivity.
+    + lia.
+  - apply iD_silent; try assumption; auto.
+    + rewrite Hpc; discriminate.
+    + lia.
+    + intros hm H; discriminate H.
+    + intros q' b' k H; discriminate H.
+    + apply zr_keep; try assumption; auto; try lia.
+      intros b' n Hb. left. rewrite Hpc. exact Hb.
+Qed.
+
 (** ** inside the critical section *)
 
 Lemma iD_src c t q b g :
@@ -754,13 +772,14 @@ Lemma iD_step c t :
   IInvA e L c -> IInvB e c -> IInvC c -> IInvD c -> In t L -> istep_nowrap c t -> IInvD (step e c t).
 Proof.
   intros A B C I Hin Hw. unfold istep_nowrap in Hw.
-  destruct (t_pc (c_pool c t)) as [|q|q b|q b|q b got|q b got|q b got|q b got| |hm|hm] eqn:Hpc.
+  destruct (t_pc (c_pool c t)) as [|q|q b|q b|q b|q b got|q b got|q b got|q b got| |hm|hm] eqn:Hpc.
   - destruct (t_todo (c_pool c t)) as [|o rest] eqn:Htodo.
     + rewrite (istep_idle_nil e) by assumption. exact I.
     + rewrite (istep_idle_call e c t o rest) by assumption. apply iD_call; assumption.
   - apply iD_res with q; assumption.
   - apply iD_chkf with q b; assumption.
   - apply iD_ldy with q b; assumption.
+  - apply iD_chkt with q b; assumption.
   - apply iD_src with q b got; assumption.
   - apply iD_setf with q b got; assumption.
   - apply iD_pub with q b got; assumption.
